@@ -7,6 +7,11 @@ Search (independent of the model): programs `from_array(src, chunks)` + chains o
 ints / stepped slices / rechunks / transposes / elemwise over plain NumPy sources and over
 recording sources (storage grid, lock, custom getitem, asarray/fancy flags); oracle =
 NumPy indexing of the wrapped array + an explicit bounds check of every logged read request.
+Locked stores: every (store mode eager/lazy-window/matrix) x (lock kind True / SerializableLock /
+threading.Lock / RLock / user object) x (getitem default / getter* / custom 4-arg / custom 2-arg) x
+asarray x (sync / threaded scheduler) over a shared-cursor backend; deterministic oracle: every
+non-empty backend read happens while the lock given to from_array is held, nothing overlaps, the
+lock is free afterwards; plus direct calls of getter / getter_nofancy / getter_inline.
 """
 from __future__ import annotations
 
@@ -783,7 +788,7 @@ def shrink(case, sig, budget=120):
     return best
 
 
-def search(ctx):
+def search(ctx, no_locks=False):
     maxchain = ctx.scale(4, 8)
     n = ctx.scale(3000, 40000)
     budget = ctx.scale(35, 420)
@@ -795,6 +800,8 @@ def search(ctx):
         if ctx.elapsed() - t0 > budget:
             break
         case = gen_case(ctx, maxchain)
+        if no_locks:
+            case["lock"] = "none"  # unbalanced acquire/release already reported: a real lock could block forever
         sig, det = run_case(case)
         done += 1
         total_reads += det.get("reads", 0) if isinstance(det, dict) else 0
@@ -812,6 +819,583 @@ def search(ctx):
                      "from_array program differs from NumPy indexing of the source / read request out of bounds")
     ctx.notes["programs"] = done
     ctx.notes["logged_reads_checked"] = total_reads
+
+
+# --------------------------------------------------------------------------- locked / lazy stores
+#
+# Stores over a NON-thread-safe backend (one shared seek+read cursor) read through
+# from_array(..., lock=...).  The oracle for "the lock is honoured" is deterministic: inside
+# every non-empty backend read the store looks at the very lock object that from_array was
+# given (or created for lock=True) and records whether it is held (by the calling thread when
+# the lock kind can tell).  Eager stores read inside __getitem__; lazy stores return a window
+# object (shape/dtype/__array__, not array-like for dask) and read inside np.asarray, like
+# xarray's lazy indexing adapters; matrix stores return np.matrix blocks.
+
+class OwnerLock:
+    """user lock object (acquire/release + context manager) that remembers the owning thread"""
+
+    def __init__(self):
+        self._l = threading.Lock()
+        self.owner = None
+        self.acquired = 0
+        self.released = 0
+        self.misuse = []
+
+    def acquire(self, *a, **k):
+        me = threading.get_ident()
+        if self.owner == me:
+            self.misuse.append("acquire by the thread that already holds the lock")
+            raise RuntimeError("OwnerLock re-acquired by its owner")
+        if a or k:
+            r = self._l.acquire(*a, **k)
+        else:
+            r = self._l.acquire(timeout=20)  # never reached unless a holder forgot to release
+            if not r:
+                self.misuse.append("acquire blocked for 20 s: a previous holder never released")
+                raise RuntimeError("OwnerLock never released by its previous holder")
+        if r:
+            self.owner = me
+            self.acquired += 1
+        return r
+
+    def release(self):
+        if self.owner != threading.get_ident():
+            self.misuse.append("release by a thread that does not hold the lock")
+            raise RuntimeError("OwnerLock released by a non-owner")
+        self.owner = None
+        self.released += 1
+        self._l.release()
+
+    def locked(self):
+        return self._l.locked()
+
+    def __enter__(self):
+        self.acquire()
+        return self
+
+    def __exit__(self, *exc):
+        self.release()
+
+
+def lock_busy(lock):
+    """is `lock` still held by anybody (asked from the main thread after the computation)?"""
+    if isinstance(lock, OwnerLock):
+        return lock.owner is not None or lock._l.locked()
+    if hasattr(lock, "_is_owned"):
+        return bool(lock._is_owned())
+    return bool(lock.locked())
+
+
+def lock_held(lock):
+    """is `lock` held (by the calling thread, when the lock kind can tell)?"""
+    if isinstance(lock, OwnerLock):
+        return lock.owner == threading.get_ident()
+    if hasattr(lock, "_is_owned"):  # threading.RLock
+        return bool(lock._is_owned())
+    return bool(lock.locked())
+
+
+class CursorBackend:
+    """Backend with ONE shared cursor: read = seek, then read from wherever the cursor points.
+    Interleaved seek/read pairs of two threads return elements from the wrong position."""
+
+    def __init__(self, a):
+        self.a = a
+        self.flat = a.reshape(-1)
+        self.pos = np.arange(a.size, dtype=np.int64).reshape(a.shape)
+        self.cursor = 0
+        self.lock = None  # the lock that is supposed to protect this backend (set by the harness)
+        self.guarded = False  # record lock state / use the shared cursor
+        self.pause = 0.0
+        self.reads = 0
+        self.unlocked = []  # non-empty reads performed while the lock was not held
+        self.overlaps = 0
+        self._active = 0
+        self._mx = threading.Lock()
+        self.phase = "build"
+
+    def read(self, key):
+        want = np.asarray(self.pos[key])  # flat positions NumPy selects
+        if want.size == 0 or not self.guarded:
+            return np.asarray(self.flat[want])
+        held = lock_held(self.lock) if self.lock is not None else False
+        with self._mx:
+            self.reads += 1
+            self._active += 1
+            if self._active > 1:
+                self.overlaps += 1
+            if not held:
+                self.unlocked.append((repr(key), self.phase))
+        first = int(want.reshape(-1)[0])
+        self.cursor = first  # seek
+        if self.pause:
+            import time
+
+            time.sleep(self.pause)
+        out = np.asarray(self.flat[(want - first + self.cursor) % self.flat.size])  # read at the shared cursor
+        with self._mx:
+            self._active -= 1
+        return out
+
+
+class LazyWindow:
+    """result of `store[key]` on a lazy store: nothing read yet; the read happens in __array__"""
+
+    def __init__(self, store, key):
+        self.store = store
+        self.key = key
+        self.shape = np.broadcast_to(np.int8(0), store.shape)[key].shape
+        self.dtype = store.dtype
+        self.ndim = len(self.shape)
+
+    def __array__(self, dtype=None, copy=None):
+        out = self.store.backend.read(self.key)
+        return out if dtype is None else out.astype(dtype)
+
+    def __getitem__(self, k):
+        return np.asarray(self)[k]
+
+    def __len__(self):
+        if not self.shape:
+            raise TypeError("len() of unsized object")
+        return self.shape[0]
+
+
+class CursorStore:
+    """chunked-store look-alike over a CursorBackend; `mode`: eager | lazy | matrix"""
+
+    def __init__(self, a, mode, grid=None):
+        self.backend = CursorBackend(a)
+        self.mode = mode
+        self.shape = a.shape
+        self.dtype = a.dtype
+        self.ndim = a.ndim
+        self.log = []
+        self.bad = []
+        if grid is not None:
+            self.chunks = grid
+        self._uid = next(_UID)
+
+    def __dask_tokenize__(self):
+        return ("verif-cursorstore", self._uid)
+
+    def __getitem__(self, key):
+        self.log.append(key)
+        p = key_problem(key, self.shape)
+        if p is not None:
+            self.bad.append((repr(key), p))
+        if self.mode == "lazy":
+            return LazyWindow(self, key)
+        out = self.backend.read(key)
+        if self.mode == "matrix" and getattr(out, "ndim", 0) == 2:
+            return np.matrix(out)
+        return out
+
+
+def g4c(a, b, asarray=True, lock=None):
+    """custom getitem with the full getter signature: reads AND converts inside the lock it is handed"""
+    _GETLOG.append(b)
+    if lock:
+        lock.acquire()
+    try:
+        c = a[b]
+        if asarray:
+            c = np.asarray(c)
+        return c
+    finally:
+        if lock:
+            lock.release()
+
+
+LK_LOCKS = ("true", "serializable", "threading", "rlock", "owner")
+LK_GET = ("none", "getter", "getter_nofancy", "getter_inline", "g4c", "g2")
+LK_MODES = ("lazy", "eager", "matrix")
+LK_SCHED = ("sync", "threads")
+
+
+def make_lock(kind):
+    from dask.utils import SerializableLock
+
+    if kind == "true":
+        return True
+    if kind == "serializable":
+        return SerializableLock()
+    if kind == "threading":
+        return threading.Lock()
+    if kind == "rlock":
+        return threading.RLock()
+    if kind == "owner":
+        return OwnerLock()
+    return None
+
+
+def lk_getitem(kind):
+    import dask_array._core_utils as CU
+
+    return {"none": None, "getter": CU.getter, "getter_nofancy": CU.getter_nofancy, "getter_inline": CU.getter_inline,
+            "g4c": g4c, "g2": g2}[kind]
+
+
+def apply_steps(y, ref, steps):
+    for st in steps:
+        if st["op"] == "index":
+            idx = dec_index(st["idx"])
+            ref = ref[tuple(np.asarray(i) if isinstance(i, list) else i for i in idx)]
+            y = y[idx]
+        elif st["op"] == "rechunk":
+            y = y.rechunk(tuple(tuple(c) for c in st["chunks"]))
+        elif st["op"] == "transpose":
+            ref = ref.transpose(st["axes"])
+            y = y.transpose(st["axes"])
+        elif st["op"] == "add":
+            ref = ref + st["k"]
+            y = y + st["k"]
+    return y, ref
+
+
+def gen_locked_case(rng, mode, lock, getitem, asarray, sched, maxchain):
+    if mode == "matrix":
+        shape = (rng.randint(1, 9), rng.randint(1, 9))
+    else:
+        shape = tuple(rng.randint(1, 9) for _ in range(rng.choice([1, 2, 2, 3])))
+    case = {
+        "stream": "locked",
+        "shape": list(shape),
+        "mode": mode,
+        "grid": list(rand_grid(rng, shape)) if rng.random() < 0.4 else None,
+        "chunks": [list(c) for c in nd_chunks(rng, shape)],
+        "lock": lock,
+        "getitem": getitem,
+        "asarray": asarray,
+        "fancy": rng.random() < 0.75,
+        "inline_array": rng.random() < 0.3,
+        "optimize": rng.random() < 0.8,
+        "scheduler": sched,
+        "meta": "ndarray" if rng.random() < (0.5 if mode == "lazy" else 0.15) else None,
+        "steps": [],
+    }
+    ref = np.zeros(shape, dtype=np.int8)
+    for _ in range(rng.randint(0, maxchain)):
+        if ref.ndim == 0 or ref.size == 0:
+            break
+        r = rng.random()
+        if mode == "lazy" and case["meta"] is None and r >= 0.9:
+            # without meta= the inferred meta of a lazy store is itself a window (store[0:0]); elemwise meta
+            # inference on it is not this property's business
+            r = rng.random() * 0.9
+        if r < 0.6:
+            unit = rng.random() < 0.7
+            idx = rand_index(rng, ref.shape, unit_only=unit, allow_none=mode != "matrix", allow_fancy=mode != "matrix")
+            if mode == "matrix" and any(isinstance(i, Integral) for i in idx):
+                continue  # an integer would be pushed into a store whose blocks are np.matrix (always 2-d)
+            try:
+                ref2 = ref[tuple(np.asarray(i) if isinstance(i, list) else i for i in idx)]
+            except IndexError:
+                continue
+            case["steps"].append({"op": "index", "idx": enc_index(idx)})
+            ref = ref2
+        elif r < 0.9:
+            case["steps"].append({"op": "rechunk", "chunks": [list(c) for c in nd_chunks(rng, ref.shape, zeros=0.05)]})
+        else:
+            case["steps"].append({"op": "add", "k": rng.randint(1, 9)})
+    return case
+
+
+def run_locked_case(case):
+    """from_array over a CursorStore with a lock; returns (signature or None, details).
+    Oracles: NumPy indexing of the backing array; bounds of every request; every non-empty backend
+    read happens while the lock is held; nothing overlaps; the lock is free afterwards."""
+    import dask
+    import dask_array as da
+
+    shape = tuple(case["shape"])
+    arr = (np.arange(int(np.prod(shape)), dtype=np.int64) * 3 + 7).reshape(shape)
+    store = CursorStore(arr, case["mode"], grid=tuple(case["grid"]) if case.get("grid") else None)
+    be = store.backend
+    lock = make_lock(case["lock"])
+    kw = {}
+    if lock is not None:
+        kw["lock"] = lock
+    gi = lk_getitem(case["getitem"])
+    if gi is not None:
+        kw["getitem"] = gi
+    if case["asarray"] is not None:
+        kw["asarray"] = case["asarray"]
+    if not case["fancy"]:
+        kw["fancy"] = False
+    if case["inline_array"]:
+        kw["inline_array"] = True
+    if case.get("meta") == "ndarray":
+        kw["meta"] = np.ndarray
+    # a getitem(a, index) callable is never handed the lock: the lock oracle does not apply there
+    applicable = lock is not None and case["getitem"] != "g2"
+    threads = case["scheduler"] == "threads"
+    ref = arr
+    det = {}
+    with dask.config.set({"array.optimize-graph": bool(case["optimize"])}):
+        try:
+            x = da.from_array(store, chunks=tuple(tuple(c) for c in case["chunks"]), **kw)
+            if lock is not None:
+                held = x.expr.operand("lock")
+                if lock is True:
+                    if not held or held is True:
+                        return "lock-dropped", {"operand": repr(held)}
+                    be.lock = held
+                else:
+                    if held is not lock:
+                        return "lock-dropped", {"operand": repr(held)}
+                    be.lock = lock
+            be.guarded = applicable
+            be.pause = 0.0002 if (threads and applicable) else 0.0
+            y, ref = apply_steps(x, ref, case["steps"])
+            meta_shape = tuple(y.shape)
+            be.phase = "compute"
+            if threads:
+                got = y.compute(scheduler="threads", num_workers=4)
+            else:
+                got = y.compute(scheduler="sync")
+            be.phase = "done"
+        except NotImplementedError as e:
+            return None, {"refused": repr(e)}
+        except Exception as e:  # noqa: BLE001
+            return f"raises:{type(e).__name__}", {"error": repr(e)[:300]}
+    det["reads"] = be.reads
+    det["requests"] = len(store.log)
+    if store.bad:
+        return "read-out-of-bounds", dict(det, bad=store.bad[:5])
+    if applicable:
+        if be.unlocked:
+            return "read-outside-lock", dict(det, unlocked=len(be.unlocked), first=be.unlocked[:3])
+        if be.overlaps:
+            return "reads-overlap", dict(det, overlaps=be.overlaps)
+        if isinstance(be.lock, OwnerLock) and (be.lock.misuse or be.lock.acquired != be.lock.released):
+            return "lock-misuse", dict(det, misuse=be.lock.misuse[:3], acquired=be.lock.acquired, released=be.lock.released)
+        if lock_busy(be.lock):
+            return "lock-left-held", det
+    if isinstance(got, np.matrix) or isinstance(got, LazyWindow):
+        return "block-type", dict(det, type=type(got).__name__)
+    got = np.asarray(got)
+    if got.shape != ref.shape or not np.array_equal(got, ref):
+        return "values", dict(det, got=got.tolist() if got.size <= 64 else str(got.shape),
+                              want=ref.tolist() if ref.size <= 64 else str(ref.shape))
+    if meta_shape != ref.shape:
+        return "advertised-shape", dict(det, shape=meta_shape, want=ref.shape)
+    return None, det
+
+
+def shrink_locked(case, sig, budget=60):
+    best, tries = case, 0
+
+    def still(c):
+        nonlocal tries
+        tries += 1
+        try:
+            return run_locked_case(c)[0] == sig
+        except Exception:  # noqa: BLE001
+            return False
+
+    changed = True
+    while changed and tries < budget:
+        changed = False
+        for i in range(len(best["steps"])):
+            c = dict(best, steps=best["steps"][:i] + best["steps"][i + 1:])
+            if still(c):
+                best, changed = c, True
+                break
+        if changed:
+            continue
+        for k, v in (("scheduler", "sync"), ("grid", None), ("inline_array", False), ("fancy", True), ("optimize", True),
+                     ("asarray", None), ("getitem", "none"), ("meta", None)):
+            if best.get(k) != v:
+                if k == "meta" and any(st["op"] == "add" for st in best["steps"]):
+                    continue
+                c = dict(best, **{k: v})
+                if still(c):
+                    best, changed = c, True
+                    break
+    return best
+
+
+def lk_combos():
+    """every (store mode, lock kind, getitem, asarray, scheduler) that is meaningful"""
+    out = []
+    for mode in LK_MODES:
+        for lock in LK_LOCKS + ("none",):
+            for gi in LK_GET:
+                for asarray in (None, True, False):
+                    if asarray is False and mode != "eager":
+                        continue  # the user switched the conversion off: blocks stay windows / matrices by request
+                    if mode == "matrix" and gi == "g2":
+                        continue  # g2 converts itself; nothing matrix-specific left
+                    for sched in LK_SCHED:
+                        if lock == "none" and sched == "threads":
+                            continue
+                        out.append((mode, lock, gi, asarray, sched))
+    return out
+
+
+def locked_search(ctx, getter_unsafe=False):
+    """every lock kind x getitem x asarray x store mode x scheduler, random shapes/chunks/programs"""
+    rng = ctx.rng
+    skipped = 0
+    combos = lk_combos()
+    rounds = ctx.scale(4, 16)
+    maxchain = ctx.scale(3, 6)
+    budget = ctx.scale(25, 240)
+    t0 = ctx.elapsed()
+    done = reads = 0
+    shrunk = set()
+    g2_locked = 0
+    per_sig = {}
+    unsafe = bool(getter_unsafe)  # acquire/release unbalanced: real (blocking) locks could hang the run
+    for rd in range(rounds):
+        order = list(combos)
+        rng.shuffle(order)
+        if rd == 0:
+            # canary: the user lock object raises instead of blocking when it is acquired twice
+            order.sort(key=lambda c: (c[1] != "owner", c[4] != "sync"))
+        for mode, lock, gi, asarray, sched in order:
+            if ctx.elapsed() - t0 > budget:
+                break
+            if unsafe and (lock not in ("owner", "none") or sched == "threads"):
+                skipped += 1
+                continue
+            case = gen_locked_case(rng, mode, lock, gi, asarray, sched, 0 if rd == 0 and rng.random() < 0.5 else maxchain)
+            sig, det = run_locked_case(case)
+            done += 1
+            reads += det.get("reads", 0)
+            if gi == "g2" and lock != "none":
+                g2_locked += 1
+            ops = tuple(sorted({s["op"] for s in case["steps"]}))
+            ctx.count(("locked", mode, lock, gi, asarray, sched, ops, "refused" in det))
+            if done % 211 == 0:
+                ctx.sample({"program": case, "outcome": "ok" if sig is None else sig})
+            if sig is not None:
+                if lock == "owner" and sig in ("lock-misuse", "lock-left-held", "raises:RuntimeError"):
+                    unsafe = True
+                per_sig[sig] = per_sig.get(sig, 0) + 1
+                if per_sig[sig] > 6:
+                    continue  # same class already reported with 6 concrete programs
+                small = shrink_locked(case, sig) if sig not in shrunk else case
+                shrunk.add(sig)
+                s2, d2 = run_locked_case(small)
+                if s2 != sig:
+                    small, d2 = case, det
+                ctx.fail(f"from_array-locked:{sig}", {"kind": "program", "program": small, "details": d2},
+                         "locked store read through from_array: backend read outside the lock / wrong elements / "
+                         "request out of bounds")
+    ctx.notes["locked_programs"] = done
+    ctx.notes["locked_backend_reads_checked"] = reads
+    ctx.notes["locked_combos"] = len(combos)
+    if per_sig:
+        ctx.notes["locked_failures_by_signature"] = dict(per_sig)
+    if skipped:
+        ctx.notes["locked_skipped_blocking_locks"] = (
+            f"{skipped} programs with blocking lock kinds skipped: acquire/release found unbalanced with the user lock object")
+    return unsafe
+    if g2_locked:
+        ctx.notes["getitem_2arg_with_lock"] = (
+            f"{g2_locked} programs pass lock= together with a getitem(a, index) callable: from_array never hands such a "
+            "callable the lock (same as dask.array), so the lock oracle is not applied there (values/bounds only)")
+
+
+# --------------------------------------------------------------------------- getter functions directly
+
+GT_FUNCS = ("getter", "getter_nofancy", "getter_inline")
+
+
+def run_getter_case(case):
+    """one direct call of a getter function on a CursorStore (keys may contain None / integers)"""
+    import dask_array._core_utils as CU
+
+    shape = tuple(case["shape"])
+    arr = (np.arange(int(np.prod(shape)), dtype=np.int64) * 3 + 7).reshape(shape)
+    store = CursorStore(arr, case["mode"])
+    be = store.backend
+    lock = make_lock(case["lock"])
+    if lock is True:
+        from dask.utils import SerializableLock
+
+        lock = SerializableLock()
+    be.lock = lock
+    be.guarded = lock is not None
+    be.phase = "call"
+    key = dec_index(case["key"])
+    fn = getattr(CU, case["fn"])
+    want = arr[key]
+    try:
+        if case["style"] == "kw":
+            got = fn(store, key, asarray=case["asarray"], lock=lock)
+        elif case["style"] == "pos":
+            got = fn(store, key, case["asarray"], lock)
+        else:
+            got = fn(store, key, lock=lock) if lock is not None else fn(store, key)
+    except Exception as e:  # noqa: BLE001
+        return f"raises:{type(e).__name__}", {"error": repr(e)[:300]}
+    det = {"reads": be.reads}
+    if lock is not None:
+        if be.unlocked:
+            return "read-outside-lock", dict(det, unlocked=len(be.unlocked), first=be.unlocked[:3])
+        if isinstance(lock, OwnerLock) and (lock.misuse or lock.acquired != lock.released):
+            return "lock-misuse", dict(det, misuse=lock.misuse[:3], acquired=lock.acquired, released=lock.released)
+        if lock_busy(lock):
+            return "lock-left-held", det
+    conv = case["asarray"] if case["style"] != "default" else True
+    if conv and type(got) is not np.ndarray and not np.isscalar(got):
+        return "block-type", dict(det, type=type(got).__name__)
+    got = np.asarray(got)
+    if got.shape != want.shape or not np.array_equal(got, want):
+        return "values", dict(det, got=got.tolist() if got.size <= 64 else str(got.shape),
+                              want=want.tolist() if want.size <= 64 else str(want.shape))
+    return None, det
+
+
+def getter_search(ctx):
+    rng = ctx.rng
+    done = 0
+    per_sig = {}
+    for _ in range(ctx.scale(4, 16)):
+        for fn in GT_FUNCS:
+            for mode in LK_MODES:
+                for lock in LK_LOCKS + ("none",):
+                    for asarray in (True, False):
+                        for style in ("kw", "pos", "default"):
+                            if style == "default" and not asarray:
+                                continue
+                            if not asarray and mode != "eager":
+                                continue  # conversion switched off: the window is read later, by the caller
+                            if mode == "matrix":
+                                shape = (rng.randint(1, 7), rng.randint(1, 7))
+                            else:
+                                shape = tuple(rng.randint(1, 7) for _ in range(rng.choice([1, 2, 3])))
+                            idx = rand_index(rng, shape, unit_only=rng.random() < 0.3, allow_none=False, allow_fancy=False)
+                            idx = list(idx)
+                            if mode == "matrix":
+                                idx = [i for i in idx if not isinstance(i, Integral)]
+                            elif rng.random() < 0.5:
+                                for _n in range(rng.randint(1, 2)):
+                                    idx.insert(rng.randint(0, len(idx)), None)
+                            try:
+                                np.zeros(shape, np.int8)[tuple(idx)]
+                            except IndexError:
+                                continue
+                            case = {"stream": "getter", "fn": fn, "shape": list(shape), "mode": mode, "lock": lock,
+                                    "asarray": asarray, "style": style, "key": enc_index(tuple(idx))}
+                            sig, det = run_getter_case(case)
+                            done += 1
+                            ctx.count(("getter", fn, mode, lock, asarray, style, any(i is None for i in idx)))
+                            if done % 307 == 0:
+                                ctx.sample({"program": case, "outcome": "ok" if sig is None else sig})
+                            if sig is not None:
+                                per_sig[sig] = per_sig.get(sig, 0) + 1
+                                if per_sig[sig] > 6:
+                                    continue
+                                ctx.fail(f"getter:{sig}", {"kind": "program", "program": case, "details": det},
+                                         "getter(store, key, asarray, lock): backend read outside the lock / wrong elements")
+    ctx.notes["getter_calls"] = done
+    if per_sig:
+        ctx.notes["getter_failures_by_signature"] = dict(per_sig)
+    return any(k in ("lock-left-held", "lock-misuse", "raises:RuntimeError") for k in per_sig)
 
 
 # --------------------------------------------------------------------------- targeted
@@ -905,17 +1489,36 @@ def run(ctx, replay=None):
         "count). search: seeded random programs from_array(src, chunks, lock/getitem/asarray/fancy/inline_array) followed "
         "by <= 4 (quick) / 8 (thorough) steps of unit slices, ints, stepped/negative slices, None, rare integer lists, "
         "rechunks, transposes, elemwise adds, optimized and unoptimized; distinct by (source kind, lock, getitem, "
-        "optimize, op set, rank)"
+        "optimize, op set, rank). locked stores: the full product of store mode (eager read in __getitem__ / lazy window "
+        "read in __array__ / np.matrix blocks) x lock kind (True, SerializableLock, threading.Lock, RLock, user object "
+        "with acquire/release) x getitem (default, getter, getter_nofancy, getter_inline, custom 4-arg, custom 2-arg) x "
+        "asarray x scheduler (sync, 4 threads) over a shared seek+read cursor backend, each with random shape / chunks / "
+        "storage grid / <= 3 (quick) steps of slices, ints, rechunks, adds; the backend records inside every non-empty read "
+        "whether the lock handed to from_array is held (by the calling thread for RLock / user lock) - deterministic, not "
+        "timing based; distinct by (mode, lock, getitem, asarray, scheduler, op set). getter functions: direct calls "
+        "fn(store, key, asarray, lock) with keys containing None / ints / stepped slices, all three calling styles"
     )
     ctx.assumptions = [
         "NumPy basic indexing / slice assignment is a per-axis product (the theorems are per axis)",
         "lowering _NUMPY_SLICE_PUSHDOWN_NBYTES_LIMIT emulates NumPy sources above 64 MiB",
         "integers reaching _accept_slice are in range (normalize_index; C12)",
+        "a getitem(a, index) callable without asarray/lock keywords is never handed the lock (as in dask.array): the lock "
+        "oracle is applied only when the default getters or a 4-argument getitem are in use",
+        "with asarray=False on a lazy-window store the user defers the read on purpose: not generated",
+        "zero-size probes (meta_from_array reads store[0:0,...] at graph construction) are not subject to the lock oracle",
     ]
     if replay is not None:
         case = replay.get("case", replay)
         prog = case.get("program")
-        if prog is not None:
+        if prog is not None and prog.get("stream") in ("locked", "getter"):
+            locked = prog["stream"] == "locked"
+            sig, det = run_locked_case(prog) if locked else run_getter_case(prog)
+            if sig is not None:
+                ctx.fail(f"{'from_array-locked' if locked else 'getter'}:{sig}",
+                         {"kind": "program", "program": prog, "details": det}, "replayed program still fails")
+            ctx.count(("replay",))
+            ctx.sample({"program": prog, "outcome": sig or "ok"})
+        elif prog is not None:
             sig, det = run_case(prog)
             if sig is not None:
                 ctx.fail(f"from_array:{sig}", {"kind": "program", "program": prog, "details": det}, "replayed program still fails")
@@ -923,6 +1526,9 @@ def run(ctx, replay=None):
             ctx.sample({"program": prog, "outcome": sig or "ok"})
         return
     correspondence(ctx)
-    search(ctx)
+    # the direct getter calls go first: they cannot block, and tell whether acquire/release are balanced
+    unsafe = getter_search(ctx)
+    unsafe = locked_search(ctx, getter_unsafe=unsafe)
+    search(ctx, no_locks=unsafe)
     if ctx.disagreements or ctx.audit.get("broken"):
         targeted(ctx)
